@@ -1,5 +1,6 @@
 import RR.Proof.Codec
 import RR.Proof.Au
+import RR.Proof.AuBlock
 import RR.Proof.Sigmf
 
 /-!
@@ -64,6 +65,46 @@ theorem c14_au_roundtrip (bitrate : Nat) (hb : bitrate < 256 ^ 4) (q : Nat → N
     (xs : List Nat) : Au.decode bitrate (Au.encode bitrate q xs) = .ok (some (xs.map q)) :=
   Au.decode_encode bitrate hb q hq xs
 
+/-- **AuDecode as a block, every read segmentation.** However the byte stream `X` is cut into read
+windows (and whatever output space each call finds), the block stops with an error only if the
+one-shot decoder rejects the whole stream, and otherwise — once the header is behind it — its
+cumulative output is exactly the first `(consumed - offset) / 2` samples of the one-shot result. -/
+theorem c14_au_block_any_chunking (bitrate : Nat) (deq : Nat → Nat) (X : List Nat) (sched : List (Nat × Nat)) :
+    let r := Au.auDrive bitrate deq X .magic 0 [] sched
+    (r.2.2.2 = true → ∃ e, Au.decode bitrate X = .error e) ∧
+    (r.2.2.2 = false → r.1 = .data →
+      ∃ off pcm, Au.decode bitrate X = .ok (some pcm) ∧ off ≤ r.2.1 ∧
+        r.2.2.1 = (pcm.take ((r.2.1 - off) / 2)).map deq) := by
+  intro r
+  obtain ⟨h1, h2⟩ := Au.au_drive bitrate deq X sched .magic 0 [] ⟨rfl, rfl⟩
+  refine ⟨h1, fun hne hd => ?_⟩
+  have hinv := h2 hne
+  rw [show (Au.auDrive bitrate deq X .magic 0 [] sched).1 = Au.DecSt.data from hd] at hinv
+  obtain ⟨off, pcm, e1, _, e3, e4⟩ := Au.inv_data_prefix bitrate deq X _ _ hinv
+  exact ⟨off, pcm, e1, e3, e4⟩
+
+/-- Composed with the encoder: in any segmentation the decoder never fails on the encoder's output,
+and what it has emitted is a prefix of the quantised input. -/
+theorem c14_au_stream_roundtrip (bitrate : Nat) (hb : bitrate < 256 ^ 4) (q : Nat → Nat) (hq : ∀ x, q x < 65536)
+    (deq : Nat → Nat) (xs : List Nat) (sched : List (Nat × Nat)) :
+    let r := Au.auDrive bitrate deq (Au.encode bitrate q xs) .magic 0 [] sched
+    r.2.2.2 = false ∧
+    (r.1 = .data → ∃ k, r.2.2.1 = ((xs.map q).take k).map deq) := by
+  intro r
+  obtain ⟨h1, h2⟩ := c14_au_block_any_chunking bitrate deq (Au.encode bitrate q xs) sched
+  have hdec := Au.decode_encode bitrate hb q hq xs
+  have hne : r.2.2.2 = false := by
+    cases hb' : r.2.2.2 with
+    | false => rfl
+    | true =>
+      obtain ⟨e, he⟩ := h1 hb'
+      rw [hdec] at he; cases he
+  refine ⟨hne, fun hd => ?_⟩
+  obtain ⟨off, pcm, e1, _, e3⟩ := h2 hne hd
+  rw [hdec] at e1
+  cases e1
+  exact ⟨_, e3⟩
+
 /-- SigMF archives: the data range found does not depend on member order … -/
 theorem c14_sigmf_order (ms ms' : List Sigmf.Member) (h : ms.Perm ms') :
     Sigmf.lookup ms = Sigmf.lookup ms' := Sigmf.lookup_perm ms ms' h
@@ -75,6 +116,8 @@ theorem c14_sigmf_lookup (ms : List Sigmf.Member) (m d : Sigmf.Member)
     Sigmf.lookup ms = some (d.pos, d.size) := Sigmf.lookup_found ms m d h1 hm h2 hd
 
 /-! Non-vacuity. -/
+example : (Au.auDrive 8000 id (Au.encode 8000 id [1, 2, 515]) .magic 0 [] [(3, 9), (5, 9), (4, 9), (30, 0), (30, 9), (3, 1), (9, 9)]).2 =
+    (34, [1, 2, 515], false) := by decide
 example : (feedAll .u32 [] [[1], [2, 3], [], [4, 5, 6, 7, 8], [9]]).1 = [9] := by decide
 example : parse .complex (serialize .complex ⟨0x7fc00001, 0xff800000⟩) = some ⟨0x7fc00001, 0xff800000⟩ := by decide
 example : Sigmf.lookup [⟨9, .otherFile, .regular, 0, 5⟩, ⟨1, .dataFile, .regular, 1024, 77⟩,
